@@ -26,7 +26,7 @@ def main():
     prop, k = sys.argv[1], sys.argv[2]
     race = '--race' in sys.argv
     no_base = '--no-baseline' in sys.argv
-    src = f'/tmp/mut/{prop}/out/m{k}'
+    src = f"{os.environ.get('MUT_BASE', '/tmp/mut')}/{prop}/out/m{k}"
     patch = f'{src}/patch.diff'
     demos = [f for f in os.listdir(src) if f.endswith('_test.go')]
     assert os.path.exists(patch) and demos, 'patch or demo missing'
